@@ -894,7 +894,7 @@ func (ls *LanceroSource) distributeData(buffersMsg BuffersChanType) *dataBlock {
 		block.segments[channelIndex] = seg
 		block.nSamp = len(data)
 	}
-	ls.nextFrameNum += FrameIndex(framesUsed)
+	ls.nextFrameNum += FrameIndex(framesUsed + droppedFrames) // the segments above started droppedFrames later
 	ls.previousLastSampleTime = lastSampleTime
 	if ls.heartbeats != nil {
 		mb := float64(totalBytes) / 1e6
